@@ -98,7 +98,15 @@ def gen_case(seed, tier="quick"):
         elif k == "op":
             name = rng.choice(("unit", "add", "subtract", "scale", "dot", "deltaphi", "rotateZ", "equal", "isclose", "neg2D", "to_Vector2D", "to_Vector3D", "to_Vector4D",
                                "py:abs", "py:neg", "py:pow", "py:mul", "py:truediv", "py:eq", "np:absolute", "np:square", "np:sqrt", "np:cbrt", "np:power", "np:negative",
-                               "np:add", "np:subtract", "np:matmul"))
+                               "np:add", "np:subtract", "np:matmul", "np:sum", "np:count_nonzero", "np:isclose", "np:allclose", "ak:sum", "ak:count",
+                               "mixed:add", "mixed:subtract", "mixed:dot", "mixed:deltaphi", "mixed:isclose"))
+            if name.startswith("mixed:"):
+                st_w = {g: C.value(rng, g) for g in gnames}
+                steps.append({"s": "op", "name": name, "w": st_w, "wm": C.spell(rng, sys_, True)})
+                continue
+            if name in ("np:sum", "ak:sum", "ak:count", "np:count_nonzero"):
+                steps.append({"s": "op", "name": name, "axis": rng.choice((None, 0, -1)), "keepdims": rng.random() < 0.3})
+                continue
             st = {"s": "op", "name": name}
             if name in ("scale", "rotateZ", "py:mul", "py:truediv"):
                 st["arg"] = round(rng.uniform(-2, 2), 3) or 1.5
@@ -390,6 +398,23 @@ def run_case(case, vector):
                 import operator as _op
 
                 kind_, fn_ = name.split(":")
+                if kind_ == "mixed":
+                    # the partner is a single vector *object* (another backend) built in both spellings
+                    wg = vector.obj(**{g: st["w"][g] for g in gn})
+                    wm = vector.obj(**{nm: st["w"][g] for nm, g in zip(st["wm"], gn)})
+                    rg, rm = twin_call(i, lambda: getattr(Gv, fn_)(wg), lambda: getattr(Mv, fn_)(wm))
+                    _both(i, st, rg, rm, viol, be, name)
+                    rg2, rm2 = twin_call(i, lambda: getattr(wg, fn_)(Gv), lambda: getattr(wm, fn_)(Mv))
+                    _both(i, st, rg2, rm2, viol, be, name + " (object first)")
+                    continue
+                if fn_ in ("sum", "count", "count_nonzero") and "axis" in st:
+                    mod_ = ak if kind_ == "ak" else numpy
+                    kw_ = {"axis": st["axis"]}
+                    if st.get("keepdims") and fn_ == "sum":
+                        kw_["keepdims"] = True
+                    rg, rm = twin_call(i, lambda: getattr(mod_, fn_)(Gv, **kw_), lambda: getattr(mod_, fn_)(Mv, **kw_))
+                    _both(i, st, rg, rm, viol, be, name)
+                    continue
                 f_ = getattr(_op, fn_) if kind_ == "py" else getattr(numpy, fn_)
                 if fn_ in ("abs", "neg", "absolute", "square", "sqrt", "cbrt", "negative"):
                     fg = lambda: f_(Gv)  # noqa: E731
